@@ -187,6 +187,13 @@ class _Env:
                 s.trace.append("handleConnection")
         self.Handler = Handler
 
+    def dispose(self):
+        """a Master installs a logging handler bound to its event loop: take it out before the loop is closed"""
+        try:
+            self.tctx.master._legacy_log_events.uninstall()
+        finally:
+            if not self.loop.is_closed(): self.loop.close()
+
     def run(self, case):
         dest = unhx(case["dest_hex"]).decode("utf-8", "surrogateescape")
         # the real `Servers` container keeps its identity; its instances are stubs, and — as Servers.update does —
@@ -279,7 +286,7 @@ class _RealEnv(_Env):
                     await self._settle()
                 self.loop.run_until_complete(stop())
         finally:
-            self.loop.close()
+            self.dispose()
 
     def run(self, case):
         self.current = repr(case["servers"])      # the live instances are the real ones: nothing to swap in
@@ -494,7 +501,7 @@ class Check(PropertyCheck):
             try:
                 return {"steps": [self._impl_step(e, st) for st in case["hist"]]}
             finally:
-                e.loop.close()
+                e.dispose()
                 global _LOG_SINK
                 if _ENV is not None: _LOG_SINK = _ENV.errors
         return self._impl_step(env(), case)
